@@ -411,7 +411,41 @@ func checkKeyWritten(k string, key theory.Key, mustAccept, mustReject bool) *Vio
 		return v
 	}
 	// the same with a pickup: the piece opens with a rest
-	return checkKeyWrittenOn(k, key, mustAccept, mustReject, "- values: [\"1/2\"]\n"+oneChordDoc(""))
+	if v := checkKeyWrittenOn(k, key, mustAccept, mustReject, "- values: [\"1/2\"]\n"+oneChordDoc("")); v != nil {
+		return v
+	}
+	// the key arrives on the closing rest of the piece (no flag): stated there, or refused if it has no scale
+	wr := Run{Argv: []string{"write"}, Stdin: oneChordDoc("") + "- values: [\"1\"]\n  key: " + yq(k) + "\n"}.Exec()
+	if v := cleanOutcome(wr); v != nil {
+		return v
+	}
+	if wr.Exit != 0 {
+		if mustAccept {
+			return vio("listed-key-not-written", "`crd write` refuses a piece whose closing rest carries key %s: %s", k, firstLines(wr.Stderr, 2))
+		}
+		return nil
+	}
+	if mustReject {
+		return vio("impossible-key-written", "`crd write` accepts key %s (%d accidentals) on the closing rest of a piece", k, key.Sig())
+	}
+	_, song, err := decode(wr.Stdout)
+	if err != nil || len(song.Tracks) == 0 {
+		return vio("not-smf", "closing rest with key %s: %v", k, err)
+	}
+	mi := 0
+	if key.Minor {
+		mi = 1
+	}
+	last := ""
+	for _, e := range song.Tracks[0] {
+		if e.IsMeta(0x59) && len(e.Data) == 2 {
+			last = fmt.Sprintf("tick %d sf=%d mi=%d", e.Tick, int8(e.Data[0]), e.Data[1])
+		}
+	}
+	if want := fmt.Sprintf("tick 960 sf=%d mi=%d", key.Sig(), mi); last != want && !(k == "C" && last == "tick 0 sf=0 mi=0") {
+		return vio("written-signature", "a piece whose closing rest carries key %s: the last key signature is %q, expected %q", k, last, want)
+	}
+	return nil
 }
 
 func checkKeyWrittenOn(k string, key theory.Key, mustAccept, mustReject bool, doc string) *Violation {
